@@ -197,13 +197,15 @@ def show(x):
     return head + ("=" + x.raw if not x.segments else "(" + " ".join(show(k) for k in kids) + ")")
 
 
-def run(ck, rnd, quick, spec_failures, disagreements, dist):
+def run(ck, rnd, quick, spec_failures, disagreements, dist, part="tables"):
     global R
     R = rnd
     from sqllineage.core.parser.sqlfluff.analyzer import SqlFluffLineageAnalyzer
     from sqllineage.exceptions import SQLLineageException
     from sqllineage.runner import LineageRunner
-    n = 40 if quick else 600
+    n = 30 if quick else 600
+    if part == "columns":
+        return run_columns(ck, quick, spec_failures, disagreements, dist, n)
     cases = FIXED + [gen_dml(k) for k in ("update", "merge", "into") for _ in range(n)]
     rend = coq_eval(HEADER, ["show_render_dml (%s)" % g_dml(d) for d in cases], shard=100)
     spec = coq_eval(HEADER, ['((if dml_ok (%s) then "in" else if dml_ok_base (%s) then "where" else "out") ++ "|" ++ show_tables_dml "" (%s) ++ "|" ++ '
@@ -250,3 +252,63 @@ def run(ck, rnd, quick, spec_failures, disagreements, dist):
             if got != want_spec and got != want_defect:
                 spec_failures.append(dict(case, recorded_defect_K_C01_7=want_defect))
     dist["dml"] = dd
+
+
+HEADER_COLS = ("From SV Require Import Ast.SpecDmlCols Tree.RenderDml Tree.LemmaA Tree.LemmaADmlDefs Tree.LemmaBDml.\n"
+               "Open Scope string_scope.\nOpen Scope list_scope.")
+
+
+def gen_dml_cols(kind):
+    """UPDATE over base tables / MERGE with a table source, qualifiers drawn from the names in scope (inside dml_cols_ok mostly)"""
+    def base(used):
+        t = gen_tref()
+        while t[1] in used:
+            t = gen_tref()
+        used.add(t[1])
+        return ("table", t, R.choice([None, None, "x" + t[1]]))
+    used = set()
+    tgt = gen_tref()
+    used.add(tgt[1])
+    if kind == "update":
+        frm = [base(used) for _ in range(R.choice([1, 1, 2, 3]))]
+        names = [x[2] or x[1][1] for x in frm]
+        sets = [(R.choice(COLS), R.choice([None] + names), R.choice(COLS)) for _ in range(R.choice([1, 2, 3]))]
+        return ("update", tgt, R.choice([None, None, "tz"]), sets, frm, R.random() < 0.5, None)
+    src = base(used)
+    nm = src[2] or src[1][1]
+    upd = [(R.choice(COLS), R.choice([None, nm]), R.choice(COLS)) for _ in range(R.choice([0, 1, 2]))]
+    ins = None
+    if not upd or R.random() < 0.6:
+        k = R.choice([1, 2, 3])
+        ins = ([R.choice(COLS) for _ in range(k)], [(R.choice([None, nm]), R.choice(COLS)) for _ in range(R.choice([k, k, k + 1, max(1, k - 1)]))])
+    return ("merge", tgt, R.choice([None, None, "tz"]), src, upd, ins)
+
+
+def run_columns(ck, quick, spec_failures, disagreements, dist, n):
+    import t2tie
+    from sqllineage.exceptions import SQLLineageException
+    from sqllineage.runner import LineageRunner
+    cases = [gen_dml_cols(k) for k in ("update", "merge") for _ in range(n)]
+    spec = coq_eval(HEADER_COLS, ['((if dml_cols_ok (%s) then "in" else "out") ++ "|" ++ show_spec_dml "" (%s))%%string' % ((g_dml(d),) * 2) for d in cases], shard=100)
+    dd = {"statements": len(cases), "inside_dml_cols_ok": 0, "with_pairs": 0}
+    for d, sp in zip(cases, spec):
+        inside, _, want = sp.partition("|")
+        ck.count()
+        if inside != "in":
+            continue
+        dd["inside_dml_cols_ok"] += 1
+        sql = p_dml(d)
+        try:
+            lr = LineageRunner(sql, dialect="ansi")
+            lr._eval()
+            got = t2tie.summary(lr)
+        except SQLLineageException as ex:
+            got = "ERR:" + type(ex).__name__
+        if "#" in want and want.split("#", 1)[1]:
+            dd["with_pairs"] += 1
+            ck.nontriv(("dml-cols", sql))
+        # the specification prints unresolved sources as name{candidates}; t2tie.summary does the same
+        if got != want:
+            spec_failures.append({"suite": "S-dml-columns", "dialect": "ansi", "sql": sql, "impl": got, "spec": want,
+                                  "detail": "UPDATE / MERGE inside dml_cols_ok (Tree/LemmaBDml.v): the implementation must report the specified column pairs"})
+    dist["dml_columns"] = dd
